@@ -71,6 +71,57 @@ theorem history_conf_uses_only_conf (ops : List (Op × List Bool)) (t : TreeTabl
   TreeTable.run_conf ops t m ht
 theorem history_default_uses_only_libc (ops : List (Op × List Bool)) (t : TreeTable) (m : Mem) (ht : t.triple = .libc) :
     (t.run cmp ops m).2.2.2.live = m.live := TreeTable.run_libc ops t m ht
+/-- sessions (table calls interleaved with iterator sessions) stay on the table's triple -/
+theorem session_uses_only_own_triple (segs : List Segment) (t : TreeTable) (m : Mem) :
+    (t.triple = .conf → (t.runSession cmp segs m).2.2.libc = m.libc ∧ (t.runSession cmp segs m).2.2.liveLibc = m.liveLibc) ∧
+    (t.triple = .libc → (t.runSession cmp segs m).2.2.live = m.live) ∧
+    (t.runSession cmp segs m).2.1.triple = t.triple := by
+  induction segs generalizing t m with
+  | nil => exact ⟨fun _ => ⟨rfl, rfl⟩, fun _ => rfl, rfl⟩
+  | cons seg rest ih =>
+    cases seg with
+    | calls ops =>
+      have ht := TreeTable.run_triple (cmp := cmp) ops t m
+      obtain ⟨a, b, c⟩ := ih (t.run cmp ops m).2.2.1 (t.run cmp ops m).2.2.2
+      simp only [TreeTable.runSession]
+      refine ⟨fun h => ?_, fun h => ?_, c.trans ht⟩
+      · have k := TreeTable.run_conf (cmp := cmp) ops t m h
+        have := a (ht.trans h)
+        exact ⟨this.1.trans k.1, this.2.trans k.2⟩
+      · exact (b (ht.trans h)).trans (TreeTable.run_libc ops t m h)
+    | iterate prog =>
+      have ht := TreeTable.iterRun_triple (cmp := cmp) prog t t.iterInit m
+      obtain ⟨a, b, c⟩ := ih (t.iterRun cmp t.iterInit prog m).2.1 (t.iterRun cmp t.iterInit prog m).2.2.2
+      simp only [TreeTable.runSession]
+      refine ⟨fun h => ?_, fun h => ?_, c.trans ht⟩
+      · have k := TreeTable.iterRun_conf (cmp := cmp) prog t t.iterInit m h
+        have := a (ht.trans h)
+        exact ⟨this.1.trans k.1, this.2.trans k.2.1⟩
+      · exact (b (ht.trans h)).trans (TreeTable.iterRun_libc_live prog t t.iterInit m h)
+
+/-- on the C library's triple every call of a history leaves all of the configured allocator's state
+alone (live blocks, event counters, schedule) — the per-call statement `default_uses_only_libc` along the
+run: after the run the configured live count is the initial one and the last call recorded no configured
+event -/
+theorem history_default_no_conf_events (ops : List (Op × List Bool)) (t : TreeTable) (m : Mem)
+    (ht : t.triple = .libc) (hne : ops ≠ []) :
+    (t.run cmp ops m).2.2.2.live = m.live ∧ (t.run cmp ops m).2.2.2.nalloc = 0 ∧
+    (t.run cmp ops m).2.2.2.nfree = 0 ∧ (t.run cmp ops m).2.2.2.nrefused = 0 := by
+  refine ⟨TreeTable.run_libc ops t m ht, ?_⟩
+  induction ops generalizing t m with
+  | nil => exact absurd rfl hne
+  | cons x ops ih =>
+    obtain ⟨op, sched⟩ := x
+    simp only [TreeTable.run]
+    cases ops with
+    | nil =>
+      have s := TreeTable.step_mem (cmp := cmp) t op (m.begin sched)
+      rw [ht] at s
+      have := s.confSame
+      simp only [TreeTable.run]
+      exact ⟨this.2.1, this.2.2.1, this.2.2.2.1⟩
+    | cons y ys => exact ih _ _ (by rw [TreeTable.step_triple, ht]) (by simp)
+
 theorem iter_program_conf_uses_only_conf (prog : List IterOp) (t : TreeTable) (it : TreeIter) (m : Mem)
     (ht : t.triple = .conf) : TreeTable.LibcSame m (t.iterRun cmp it prog m).2.2.2 :=
   TreeTable.iterRun_conf prog t it m ht
